@@ -493,6 +493,22 @@ def jobs_C12(tier, seed):
     return jobs
 
 
+def jobs_C13(tier, seed):
+    want = 'C13'
+    jobs = []
+    C = cfg(multipart_threshold=100, multipart_chunksize=20, io_chunksize=2, max_bandwidth=4,
+            max_request_concurrency=2, max_submission_concurrency=2)
+    C2 = dict(C, multipart_threshold=20)
+    ob = {'b40': 40}
+    for name, trs, c in (('upload+download single', [T_up('path', 40), T_dl('path', 'b40')], C),
+                         ('upload stream + ranged download', [T_up('nonseekable', 40), T_dl('nonseekable', 'b40')], C2)):
+        s = scn(copy.deepcopy(trs), dict(c), seed=seed, bw_threshold=2, body_read_size=2, horizon=100000)
+        s['objects'] = dict(ob)
+        jobs.append(job(f'wiring {name}', s, {'sched': 0} if tier == 'quick' else {'sched': 1}, want,
+                        forced_cost=1, max_execs=20000))
+    return jobs
+
+
 def jobs_C16(tier, seed):
     # non-seekable destinations under C02's fault sequences
     return jobs_C02(tier, seed, want='C16', dsts=('nonseekable', 'special'))
